@@ -1292,14 +1292,22 @@ fn respell(buf: &[u8], node: &der::Node, path: &mut Vec<usize>, plan: &[(Vec<usi
 
 fn ber_spellings(ctx: &Ctx, fx: &Fixed) {
     let sp = ctx.space("content.ber_spellings",
-        "BER spellings inside an otherwise valid eContent, read by ManifestContent::take_from in BER and DER mode: for lists of 1, 2 and 3 entries (with and without an explicit version 0), every TLV (content SEQUENCE, version [0] and its INTEGER, manifestNumber, thisUpdate, nextUpdate, fileHashAlg, fileList, every FileAndHash SEQUENCE, every name, every hash) in every spelling that applies (constructed: indefinite length, non-minimal long-form length; INTEGER/OID: non-minimal length; strings and times: non-minimal length, constructed in 2 and 3 segments, constructed with indefinite length) -- every single respelling and every pair of respellings of two different TLVs; all names and hashes are valid, so whatever is accepted must iterate, resolve and verify like the DER form; rejections are only counted; non-trivial = respelled encodings (all differ from DER)");
+        "BER spellings inside an otherwise valid eContent, read by ManifestContent::take_from in BER and DER mode: for lists of 1, 2 and 3 entries (with and without an explicit version 0), every TLV (content SEQUENCE, version [0] and its INTEGER, manifestNumber, thisUpdate, nextUpdate, fileHashAlg, fileList, every FileAndHash SEQUENCE, every name, every hash) in every spelling that applies (constructed: indefinite length, non-minimal long-form length; INTEGER/OID: non-minimal length; strings and times: non-minimal length, constructed in 2 and 3 segments, constructed with indefinite length) -- every single respelling and every pair of respellings of two different TLVs; with all names and hashes valid whatever is accepted must iterate, resolve and verify like the DER form; the same respellings crossed with every kind of excluded name (12 names: slash, dot-dot, bad extension, empty, ...) at every position of the list: whatever is accepted then lists a name the property excludes; rejections are only counted; non-trivial = respelled encodings (all differ from DER)");
     let names = ["a-b_C1.roa", "X0.cer", "third_3.crl"];
-    let mut jobs: Vec<(usize, bool)> = Vec::new();
-    for n in 1..=3usize { for ver in [false, true] { jobs.push((n, ver)) } }
-    let parts: Vec<Tally> = jobs.par_iter().map(|&(n, ver)| {
+    // Every spelling is also crossed with every kind of violation of the name rule (round 12): one
+    // entry of the list carries a name the property excludes. Whatever is accepted goes through
+    // `examine`, which demands that every listed name is a single RFC 9286 segment and resolves
+    // directly inside the base.
+    let bad_names: [&str; 12] = ["sub/fine.roa", "../fine.roa", "fine.roa#", ".roa", "a.b.roa", "fine.ro", "fine.roax", "fine", "",
+                                 "fi ne.roa", "fine.r0a", "/fine.roa"];
+    let mut jobs: Vec<(usize, bool, Option<(usize, usize)>)> = Vec::new();
+    for n in 1..=3usize { for ver in [false, true] { jobs.push((n, ver, None)) } }
+    for n in 1..=3usize { for pos in 0..n { for b in 0..bad_names.len() { jobs.push((n, false, Some((pos, b)))) } } }
+    let parts: Vec<Tally> = jobs.par_iter().map(|&(n, ver, bad)| {
         let mut t = Tally::default();
         let mut c = Case::plain(names[..n].iter().map(|s| fx.good(s)).collect());
         if ver { c.version = Some(0) }
+        if let Some((pos, b)) = bad { c.entries[pos] = fx.good(bad_names[b]); }
         let ec = c.econtent();
         let root = der::parse_one(&ec, false).expect("own eContent parses");
         let mut nodes = Vec::new();
@@ -1326,8 +1334,14 @@ fn ber_spellings(ctx: &Ctx, fx: &Fixed) {
             for s in sps { choices.push((p.clone(), *s)) }
         }
         let mut plans: Vec<Vec<(Vec<usize>, Sp)>> = choices.iter().map(|ch| vec![ch.clone()]).collect();
+        // with a bad name: every single respelling, and every pair that involves the bad entry's name
+        let bad_name_path: Option<Vec<usize>> = bad.map(|(pos, _)| {
+            nodes.iter().map(|(p, _)| p.clone()).find(|p| p.len() == 3 && p[1] == pos && p[2] == 0).expect("name node of the bad entry")
+        });
         for i in 0..choices.len() { for j in i + 1..choices.len() {
-            if choices[i].0 != choices[j].0 { plans.push(vec![choices[i].clone(), choices[j].clone()]) }
+            if choices[i].0 == choices[j].0 { continue }
+            if let Some(bp) = &bad_name_path { if &choices[i].0 != bp && &choices[j].0 != bp { continue } }
+            plans.push(vec![choices[i].clone(), choices[j].clone()])
         }}
         for plan in &plans {
             let bytes = Bytes::from(respell(&ec, &root, &mut Vec::new(), plan));
@@ -1354,7 +1368,7 @@ fn ber_spellings(ctx: &Ctx, fx: &Fixed) {
     let mut t = Tally::default();
     for p in parts { t.absorb(p) }
     t.flush(ctx, &sp);
-    sp.done(true, "6 lists x every single respelling and every pair of respellings of two different TLVs x 2 modes");
+    sp.done(true, "6 valid lists x every single respelling and every pair of respellings of two different TLVs x 2 modes; 72 lists with one excluded name (12 names x every position of lists of 1..3) x every single respelling and every pair involving that name x 2 modes");
 }
 
 //------------ the number of entries ---------------------------------------------------------------
